@@ -12,10 +12,8 @@ def init (nb : V → List V) (root : V) : BSt :=
   { disc := [(root, 0)], low := [(root, 0)], visited := [root], estack := [], loc := [],
     stack := [⟨root, root, 0, nb root⟩], comps := [], aps := [], rootChildren := 0 }
 
-/-- discovery number -/
-def dsc (s : BSt) (v : V) : Nat := (lookup v s.disc).getD 0
-/-- low point -/
-def lw (s : BSt) (v : V) : Nat := (lookup v s.low).getD 0
+/-- value of a node in the dictionaries `disc` / `low` (0 when absent) -/
+def D (l : List (V × Nat)) (v : V) : Nat := (lookup v l).getD 0
 
 /-- frame with its pointer advanced -/
 def adv (f : Frame) : Frame := { f with ptr := f.ptr + 1 }
@@ -37,13 +35,13 @@ theorem bstep_cases (nb : V → List V) (s : BSt) (P : BSt → Prop)
     (hskip : ∀ f rest, s.stack = f :: rest → f.ptr < f.nbrs.length → f.nbrs.getD f.ptr "" = f.parent →
       P { s with stack := adv f :: rest })
     (hback : ∀ f rest nn, s.stack = f :: rest → f.ptr < f.nbrs.length → nn = f.nbrs.getD f.ptr "" →
-      nn ≠ f.parent → nn ∈ s.visited → dsc s nn ≤ dsc s f.child →
+      nn ≠ f.parent → nn ∈ s.visited → D s.disc nn ≤ D s.disc f.child →
       P { s with stack := adv f :: rest,
                  estack := s.estack ++ [(f.child, nn)],
                  loc := setKV (f.child, nn) s.estack.length s.loc,
-                 low := setKV f.child (min (lw s f.child) (dsc s nn)) s.low })
+                 low := setKV f.child (min (D s.low f.child) (D s.disc nn)) s.low })
     (hign : ∀ f rest nn, s.stack = f :: rest → f.ptr < f.nbrs.length → nn = f.nbrs.getD f.ptr "" →
-      nn ≠ f.parent → nn ∈ s.visited → dsc s f.child < dsc s nn →
+      nn ≠ f.parent → nn ∈ s.visited → D s.disc f.child < D s.disc nn →
       P { s with stack := adv f :: rest })
     (hpush : ∀ f rest nn, s.stack = f :: rest → f.ptr < f.nbrs.length → nn = f.nbrs.getD f.ptr "" →
       nn ≠ f.parent → nn ∉ s.visited →
@@ -53,16 +51,16 @@ theorem bstep_cases (nb : V → List V) (s : BSt) (P : BSt → Prop)
                  estack := s.estack ++ [(f.child, nn)],
                  loc := setKV (f.child, nn) s.estack.length s.loc })
     (hpop2cut : ∀ f rest, s.stack = f :: rest → ¬ f.ptr < f.nbrs.length → rest.length > 1 →
-      dsc s f.parent ≤ lw s f.child →
+      D s.disc f.parent ≤ D s.low f.child →
       P { s with stack := rest,
                  aps := insertSet f.parent s.aps,
                  comps := s.comps ++ [nodesOf (s.estack.drop ((lookup (f.parent, f.child) s.loc).getD 0))],
                  estack := s.estack.take ((lookup (f.parent, f.child) s.loc).getD 0),
-                 low := setKV f.parent (min (lw s f.parent) (lw s f.child)) s.low })
+                 low := setKV f.parent (min (D s.low f.parent) (D s.low f.child)) s.low })
     (hpop2 : ∀ f rest, s.stack = f :: rest → ¬ f.ptr < f.nbrs.length → rest.length > 1 →
-      lw s f.child < dsc s f.parent →
+      D s.low f.child < D s.disc f.parent →
       P { s with stack := rest,
-                 low := setKV f.parent (min (lw s f.parent) (lw s f.child)) s.low })
+                 low := setKV f.parent (min (D s.low f.parent) (D s.low f.child)) s.low })
     (hpop1 : ∀ f rest, s.stack = f :: rest → ¬ f.ptr < f.nbrs.length → rest.length = 1 →
       P { s with stack := rest,
                  rootChildren := s.rootChildren + 1,
@@ -86,7 +84,7 @@ theorem bstep_cases (nb : V → List V) (s : BSt) (P : BSt → Prop)
           have hv' : f.nbrs.getD f.ptr "" ∈ s.visited := by simpa using hv
           split
           · next hle => exact hback f rest _ h hlt rfl hp' hv' hle
-          · next hle => exact hign f rest _ h hlt rfl hp' hv' (by simpa [dsc] using hle)
+          · next hle => exact hign f rest _ h hlt rfl hp' hv' (by simpa [D] using hle)
         · next hv =>
           have hv' : f.nbrs.getD f.ptr "" ∉ s.visited := by simpa using hv
           exact hpush f rest _ h hlt rfl hp' hv'
@@ -96,7 +94,7 @@ theorem bstep_cases (nb : V → List V) (s : BSt) (P : BSt → Prop)
       · next hlen =>
         split
         · next hc => exact hpop2cut f rest h hlt hlen hc
-        · next hc => exact hpop2 f rest h hlt hlen (by simpa [dsc, lw] using hc)
+        · next hc => exact hpop2 f rest h hlt hlen (by simpa [D] using hc)
       · next hlen =>
         split
         · next h1 => exact hpop1 f rest h hlt (by simpa using h1)
